@@ -427,11 +427,12 @@ func mutableDecl(typ, val ast.Expr) bool {
 	case *ast.UnaryExpr:
 		return v.Op == token.AND
 	case *ast.CallExpr:
-		if id, ok := v.Fun.(*ast.Ident); ok && id.Obj != nil && id.Obj.Kind == ast.Fun {
-			// a package-level function of the same package building a function value etc.: still unknown
-			return true
+		if se, ok := v.Fun.(*ast.SelectorExpr); ok {
+			if id, ok := se.X.(*ast.Ident); ok && ((id.Name == "errors" && se.Sel.Name == "New") || (id.Name == "fmt" && se.Sel.Name == "Errorf")) {
+				return false // an error value: immutable
+			}
 		}
-		return true
+		return true // any other call: unknown result (a constructor of a cache, a set, a function value, …)
 	case *ast.FuncLit:
 		return false
 	}
